@@ -73,6 +73,20 @@ CHECKS["C02"] = dict(
     design_ref="DESIGN.md section 3 / C02",
 )
 
+CHECKS["C03"] = dict(
+    category="other",
+    text=("Clause-level: the counter discipline the property names is decided structurally - every write to the counter field in the crate "
+          "is enumerated and classified (constructors, exactly one +1 guarded by the exhaustion test, wipes; all inside the counter's own type); "
+          "on a key value the counter member is replaced only by parser / generator / wipe and advanced by one call; in the signing core the order "
+          "expansion < sign (success edge) < single increment < serialise < callback holds on one key local; level i's leaf is decomposition[i] taken "
+          "with level i's parameter and child identity derives from level i-1's current leaf; the decomposition masks and shifts by the same level's "
+          "height, bottom-up; the LMS key refuses leaves >= 2^h and advances its own index; the expanded key refuses to sign twice. "
+          "NOT decided: that the decomposition equals the mixed-radix rule for all counters, nor uniqueness over all histories."),
+    note="Necessary conditions; relies on C04 for the persistence protocol. Anchors resolved by role (key struct = parser result type, counter = the member wrapping one integer).",
+    technique="who-may-write enumeration over MIR, dominance on the signing core, expression-DAG provenance rules, guard facts",
+    design_ref="DESIGN.md section 3 / C03",
+)
+
 NOT_APPLICABLE = {
     "C01": ("Round-trip completeness (sign then verify succeeds) is equality of two computations over runtime values "
             "(message, seed, counter, 6x4x5^L parameter shapes); no dataflow/typestate fact bounds it. Its structural "
